@@ -71,6 +71,26 @@ def workloads(ctx: core.Ctx) -> list[dict]:
         {"name": "upgrade", "keys": keys, "double": True, "sessions": [
             {"ops": [["legacy", ["old1", "old2"], 3000]], "end": "abandon", "setup": True},
             {"ops": [["blob", "new", 500]], "end": "close"}]},
+        # the application batches through ``with database:`` (Database.__enter__/__exit__, IgnoreCommits): a block
+        # left normally, one ended by IgnoreCommits, one aborted by an application error the caller catches, nested
+        # blocks - each followed by ordinary inserts, on both databases.  The process is never closed cleanly.
+        {"name": "batching", "keys": keys, "sessions": [
+            {"ops": [["open"],
+                     ["with", "identity", "ok", [["cred", "a", None, 0]]],
+                     ["with", "wallet", "ok", [["blob", "w1", 300]]],
+                     ["with", "identity", "ignore", [["cred", "b", "a", None]]],
+                     ["cred", "c", "a", None],
+                     ["with", "wallet", "ignore", [["blob", "w2", 300]]],
+                     ["blob", "w3", 300],
+                     ["with", "identity", "error", [["cred", "d", "a", None]]],
+                     ["cred", "e", "c", None],
+                     ["with", "wallet", "error", [["blob", "w4", 300]]],
+                     ["blob", "w5", 9000],
+                     ["with", "identity", "ok", [["cred", "f", "e", None],
+                                                 ["with", "identity", "ok", [["cred", "g", "f", 1]]],
+                                                 ["cred", "h", "g", None]]],
+                     ["with", "wallet", "ok", [["blob", "w6", 300], ["with", "wallet", "ok", [["blob", "w7", 300]]]]]],
+             "end": "abandon"}]},
     ]
     if ctx.thorough:
         w += [
@@ -236,20 +256,21 @@ TABLES = {"Tokens": "identity", "Metadata": "identity", "Attestations": "identit
 
 
 def ledger(events: list[dict]) -> tuple[dict, dict, tuple | None]:
-    """acked rows, begun rows (per table) and the insert in progress at the time of the kill, if any."""
+    """acked rows, begun rows (per table) and the last begun-but-unacknowledged insert at the time of the kill."""
     begun = {t: set() for t in TABLES}
     acked = {t: set() for t in TABLES}
-    pending = None
+    open_: dict[int, tuple] = {}        # insert number within the session -> (table, row), not yet acknowledged
     for ev in events:
         if ev["e"] == "B":
-            pending = (ev["t"], tuple(ev["row"]))
-            begun[ev["t"]].add(pending[1])
+            open_[ev["i"]] = (ev["t"], tuple(ev["row"]))
+            begun[ev["t"]].add(tuple(ev["row"]))
         elif ev["e"] == "A":
-            assert pending is not None
-            acked[pending[0]].add(pending[1])
-            pending = None
+            for i in ev["i"]:
+                t, row = open_.pop(i)
+                acked[t].add(row)
         elif ev["e"] == "S":
-            pending = None      # a new process: whatever was in progress in the previous one stays un-acked
+            open_ = {}          # a new process: whatever was unacknowledged in the previous one stays that way
+    pending = open_[max(open_)] if open_ else None
     return acked, begun, pending
 
 
